@@ -212,6 +212,30 @@ func classify(kind string, a, b ccmd) string {
 	if len(a.argv) < 2 || len(b.argv) < 2 {
 		return other()
 	}
+	// the known shapes are all consequences of "identity = key token + plain concatenation of the other
+	// tokens": if the other tokens do NOT concatenate to the same text, the collision is something new
+	// (e.g. an argument that no longer takes part in the identity)
+	split := func(x ccmd) (string, string) {
+		kp := 1
+		if x.scr && len(x.argv) != 2 {
+			kp = 3
+		}
+		var sb strings.Builder
+		key := ""
+		for i, v := range x.argv {
+			if i == kp {
+				key = v
+			} else {
+				sb.WriteString(v)
+			}
+		}
+		return key, sb.String()
+	}
+	keyA, restA := split(a)
+	keyB, restB := split(b)
+	if kind == "lru" && (keyA != keyB || restA != restB) || kind == "adapter" && keyA+restA != keyB+restB {
+		return other()
+	}
 	switch kind {
 	case "adapter":
 		// different identities, same concatenation: the boundary between key and command moved
